@@ -39,8 +39,8 @@ static const struct { const char *base; int cls; const char *rewrite; int all_ca
 #define LONG_KEY "S3cr3t-._~Key~42_0123456789-abcdefXYZ"
 static const char *UI_USER[] = {NULL, "u", LONG_USER, "usr3"};
 static const char *UI_KEY[] = {NULL, "k", LONG_KEY, "se:cr:et:"};     /* index 3: the key itself contains ':' (legal in user-info; the first ':' separates) */
-static const char *HOSTS[] = {"aggr.example.test", "192.0.2.7", "[2001:db8::7]"};
-static const char *HOSTS_BARE[] = {"aggr.example.test", "192.0.2.7", "2001:db8::7"};
+static const char *HOSTS[] = {"aggr.example.test", "192.0.2.7", "[2001:db8::7]", "[::ffff:192.0.2.9]"};       /* the last: IPv6 literal with an embedded dotted quad */
+static const char *HOSTS_BARE[] = {"aggr.example.test", "192.0.2.7", "2001:db8::7", "::ffff:192.0.2.9"};
 static const unsigned PORTS[] = {0, 1, 80, 65535};
 static const char *PATHS[] = {NULL, "/", "/a/b.c"};
 #define QUERY "x=1&y=b"
@@ -560,7 +560,7 @@ static void self_check(void) {
 		int k;
 		cr[0] = UI_USER[u]; cr[1] = UI_KEY[u];
 		for (k = 0; k < 2; k++) {
-			for (h = 0; h < 3; h++) if (strstr(HOSTS[h], cr[k])) vf_harness_error("component contains credential string");
+			for (h = 0; h < 4; h++) if (strstr(HOSTS[h], cr[k])) vf_harness_error("component contains credential string");
 			for (a = 1; a < 3; a++) if (strstr(PATHS[a], cr[k])) vf_harness_error("component contains credential string");
 			if (strstr(QUERY, cr[k]) || strstr(FRAG, cr[k]) || strstr("65535", cr[k])) vf_harness_error("component contains credential string");
 			for (b = 0; b < NSCH; b++) if (SCH[b].rewrite && strstr(SCH[b].rewrite, cr[k])) vf_harness_error("component contains credential string");
@@ -591,7 +591,7 @@ static void run(void) {
 		int nmask = SCH[c.b].all_cases ? (1 << nletters(SCH[c.b].base)) : 1;
 		for (c.mask = 0; c.mask < nmask; c.mask++)
 		for (c.u = 0; c.u < 3; c.u++)
-		for (c.h = 0; c.h < 3; c.h++)
+		for (c.h = 0; c.h < 4; c.h++)
 		for (c.p = 0; c.p < 4; c.p++)
 		for (c.a = 0; c.a < 3; c.a++)
 		for (c.q = 0; c.q < 2; c.q++)
